@@ -15,6 +15,13 @@ def main():
     prop, sd, wt = sys.argv[1], os.path.abspath(sys.argv[2]), os.path.abspath(sys.argv[3])
     tests = "--tests" in sys.argv
     res = {"property": prop, "seed_dir": sd}
+    if not tests and os.path.exists(os.path.join(sd, "eval.json")):
+        # keep the test-suite result of an earlier full evaluation (the patch is the same)
+        old = json.load(open(os.path.join(sd, "eval.json")))
+        for k in ("tests_newly_failing", "tests_summary", "tests_wall_s"):
+            if k in old:
+                res[k] = old[k]
+        res["first_check_rc"] = old.get("first_check_rc", old.get("check_rc"))
     sh("git reset -q --hard && git clean -fdq", cwd=wt)
     # evaluate against the CURRENT /repo HEAD (fix commits made after the seed was written)
     rc, head = sh("git -C /repo rev-parse HEAD")
